@@ -89,18 +89,38 @@ class ObjListInterp(FlowInterp):
     def _is_list_expr(self, e):
         return dotted(e) == "self.ordered_objects"
 
+    def _classify(self, v):
+        """freshness of a canonical value assigned to the object list"""
+        if not isinstance(v, tuple) or not v:
+            return LIST_SHARED
+        if v[0] in ("list", "comp"):
+            return LIST_FRESH
+        if v[0] == "sub" and isinstance(v[2], tuple) and v[2] and v[2][0] == "slice" and v[2][1] == ("const", None) and v[2][2] == ("const", None):
+            return LIST_FRESH
+        if v[0] == "call" and str(v[1]).split(".")[-1] in ("list", "copy", "deepcopy", "sorted"):
+            return LIST_FRESH
+        if v[0] == "binop" and v[1] == "+":
+            return LIST_FRESH
+        if v == ("const", None):
+            return LIST_UNSET
+        if v[0] == "phi":
+            a, b = self._classify(v[2]), self._classify(v[3])
+            return a if a == b else (LIST_SHARED if LIST_SHARED in (a, b) else LIST_UNSET)
+        return LIST_SHARED
+
     def on_assign(self, s, states, env):
+        from .sym import Sym, item_of
         for t in s.targets:
-            if self._is_list_expr(t):
-                v = s.value
-                fresh = isinstance(v, (ast.List, ast.ListComp)) or (
-                    isinstance(v, ast.Subscript) and isinstance(v.slice, ast.Slice) and v.slice.lower is None and v.slice.upper is None) or (
-                    isinstance(v, ast.Call) and call_name(v) in ("list", "copy", "copy.copy"))
-                if fresh:
-                    return frozenset([LIST_FRESH])
-                if isinstance(v, ast.Constant) and v.value is None:
-                    return frozenset([LIST_UNSET])
-                return frozenset([LIST_SHARED])
+            targets = [(t, None)] if not isinstance(t, (ast.Tuple, ast.List)) else [(e, i) for i, e in enumerate(t.elts)]
+            for tt, idx in targets:
+                if self._is_list_expr(tt):
+                    fi = env["fi"]
+                    sy = Sym(self.prog, fi, env["self_cls"] or fi.cls)
+                    e2, _g = sy.env_at(s)
+                    v = sy.expr(s.value, e2)
+                    if idx is not None:
+                        v = item_of(v, idx)
+                    return frozenset([self._classify(v)])
             if isinstance(t, ast.Subscript) and self._is_list_expr(t.value):
                 return self._mutation(s, states, env, "item store")
         return states
@@ -187,13 +207,30 @@ def ow2(ctx, R):
     # ObjectListKey.__eq__: same length and pairwise path equality in order
     eq = prog.func("tdms_segment.ObjectListKey.__eq__")
     src = unparse(eq.node)
-    has_len = any(isinstance(n, ast.Compare) and "len(" in unparse(n) and isinstance(n.ops[0], ast.Eq) for n in walk_body(eq.node))
+    def is_len(e):
+        return isinstance(e, ast.Call) and call_name(e) == "len"
+    has_len = any(isinstance(n, ast.Compare) and len(n.ops) == 1 and isinstance(n.ops[0], (ast.Eq, ast.NotEq)) and is_len(n.left) and is_len(n.comparators[0])
+                  for n in ast.walk(eq.node))
     zips = [n for n in ast.walk(eq.node) if isinstance(n, ast.Call) and call_name(n) == "zip"]
+    # whole-sequence equality of two stored ordered sequences (tuple == tuple) is a length check and a pairwise comparison at once
+    whole = [n for n in ast.walk(eq.node) if isinstance(n, ast.Compare) and len(n.ops) == 1 and isinstance(n.ops[0], (ast.Eq, ast.NotEq))
+             and isinstance(n.left, ast.Attribute) and isinstance(n.comparators[0], ast.Attribute) and n.left.attr == n.comparators[0].attr
+             and dotted(n.left.value) == "self" and isinstance(n.comparators[0].value, ast.Name) and n.comparators[0].value.id in eq.params and not zips]
     pairwise = False
+    zip_names = set()
     for n in ast.walk(eq.node):
-        if isinstance(n, ast.Compare) and isinstance(n.ops[0], ast.Eq) and isinstance(n.left, ast.Attribute) and n.left.attr == "path" \
-                and isinstance(n.comparators[0], ast.Attribute) and n.comparators[0].attr == "path":
-            pairwise = True
+        if isinstance(n, (ast.comprehension, ast.For)) and isinstance(n.iter, ast.Call) and call_name(n.iter) == "zip":
+            zip_names |= {x.id for x in ast.walk(n.target) if isinstance(x, ast.Name)}
+    for n in ast.walk(eq.node):
+        if isinstance(n, ast.Compare) and len(n.ops) == 1 and isinstance(n.ops[0], (ast.Eq, ast.NotEq)):
+            l, r_ = n.left, n.comparators[0]
+            lb = l.value if isinstance(l, ast.Attribute) else l
+            rb = r_.value if isinstance(r_, ast.Attribute) else r_
+            if isinstance(lb, ast.Name) and isinstance(rb, ast.Name) and lb.id in zip_names and rb.id in zip_names and lb.id != rb.id \
+                    and (not isinstance(l, ast.Attribute) or (isinstance(r_, ast.Attribute) and l.attr == r_.attr)):
+                pairwise = True
+    if whole:
+        has_len, zips, pairwise = True, whole, True
     unordered = any(isinstance(n, ast.Call) and call_name(n) in ("set", "frozenset", "sorted") for n in ast.walk(eq.node)) or \
         any(isinstance(n, (ast.Set, ast.SetComp)) for n in ast.walk(eq.node))
     # attributes compared: if __eq__ compares stored attributes, look at how __init__ builds them
